@@ -207,6 +207,7 @@ func main() {
 	writeIfChanged(filepath.Join(outDir, "Facts.v"), facts(pkgs))
 	writeIfChanged(filepath.Join(outDir, "GoFuncs.v"), go2coq(pkgs))
 	writeIfChanged(filepath.Join(outDir, "LockFacts.v"), lockFacts(pkgs))
+	writeIfChanged(filepath.Join(outDir, "GoTracker.v"), go2heap(pkgs))
 }
 
 func writeIfChanged(path, txt string) {
